@@ -30,6 +30,9 @@ EXTRA = {
     'C07-w42': ['C09'], 'C08-w41': ['C12', 'C13'], 'C08-w43': ['C09'], 'C01-w41': ['C07', 'C06'], 'C01-w43': ['C12', 'C13'],
     'C03-w42': ['C02', 'C17'], 'C06-w41': ['C07'], 'C10-w43': ['C12', 'C13'], 'C13-w43': ['C12'], 'C12-w42': ['C13'],
     'C14-w41': ['C11'], 'C11-w43': ['C14'], 'C17-w43': ['C02'], 'C20-w42': [], 'C16-w43': ['C04'],
+    # wave 5
+    'C01-w51': ['C06', 'C07'], 'C01-w52': ['C16'], 'C03-w52': ['C18'], 'C03-w53': ['C06'], 'C07-w52': ['C09'], 'C08-w53': ['C07'],
+    'C09-w53': ['C12', 'C13'], 'C11-w52': ['C10'], 'C12-w53': ['C06'], 'C17-w53': ['C01'], 'C15-w52': ['C03'], 'C13-w52': ['C07'],
 }
 
 
